@@ -30,6 +30,7 @@ from __future__ import annotations
 import typing
 from fractions import Fraction
 import re
+import math
 import logging
 from enum import Enum
 
@@ -217,9 +218,12 @@ def parse_vtt_pct(value: str):
   """Parse a WebVTT precentage value"""
   m = _VTT_PCT_RE.fullmatch(value)
   if m:
-    pct = round(float(m.group(1)))
-    if pct <= 100:
-      return pct
+    number = float(m.group(1))
+    # a number beyond the float range reads as infinity, which cannot be rounded
+    if math.isfinite(number):
+      pct = round(number)
+      if pct <= 100:
+        return pct
   return None
 
 # integer has at most 20 digits
